@@ -6,6 +6,10 @@ hooks_commits = subprocess.run(["git","-C","/repo","log","--format=%h %s"],captu
 hook_commits = [l.split()[0] for l in hooks_commits if l.split(" ",1)[1].startswith("verif:")]
 
 CHECKS = {
+ "C10": dict(engine="E2 e2e", category="model_checking", technique="explicit-state exploration of command histories over self-signalling programs; oracle = reference trace with recorded signal deliveries + handler counters",
+   text="Programs raise SIGUSR1/SIGUSR2 (non-quiet) and SIGALRM (quiet) on themselves, one of them with two signals blocked, raised and unblocked together; every history of breakpoints + start/continue/stepi/step/next/finish up to depth 5 (quick) / 7 is executed: each non-quiet signal must be reported exactly once as a signal stop for the receiving thread in the state just before its handler (or cut a step short and say so), quiet ones never, and the handler counters printed at exit must equal the native run whatever mix of continue and step commands was used (delivered exactly once).",
+   note="Real kernel, deterministic self-signalling only: externally timed signals, multi-threaded targets and SIGINT (transparent: the native run differs by design) are not covered; the simulated-kernel engine E1 of the design is not built.",
+   design="3/C10"),
  "C13": dict(engine="E5 dap", category="model_checking", technique="explicit-state exploration of DAP breakpoint-request histories on the real adapter, oracle = reference trace filtered by the latest sets and option semantics",
    text="Histories of initialize/launch/configurationDone/continue/restart interleaved with setBreakpoints (subsets of two lines x {plain, condition true/false/data-query, hitCondition 2 / >=2, logMessage}), setFunctionBreakpoints and setInstructionBreakpoints, each tried before launch, before configurationDone, while stopped and after restart (depth 5 quick / 7); after every resume the stop on the wire and the pc read from /proc must be the next arrival of the reference trace at a location of the latest sets that the options allow; logpoints produce one output per hit; verified = a patch exists in /proc/pid/mem.",
    note="Hit counters across a restart are not judged (unspecified). setDataBreakpoints is not in the alphabet (no hardware delivery in this VM). Conditions are the adapter's language: literals and data queries judged by truthiness.",
@@ -74,7 +78,7 @@ m = {
  },
  "engines": [
    {"name":"E3 sched","path":"/verif/harness/src/sched.rs","serves_properties":["C12"],"kind_free_text":"hand-rolled CHESS: real threads parked at feature-gated schedule points, preemption-bounded DFS, worker subprocess per subtree"},
-   {"name":"E2 e2e","path":"/verif/harness/src/{e2x,e2w,isession,reftrace,dwarfref,corpus,c01}.rs","serves_properties":["C01","C02","C03","C05"],"kind_free_text":"explicit-state exploration of command histories: one interactive worker process per session running the real Debugger over generated libc-free debuggees; reference single-step tracer; canonical-state deduplication"},
+   {"name":"E2 e2e","path":"/verif/harness/src/{e2x,e2w,isession,reftrace,dwarfref,corpus,c01}.rs","serves_properties":["C01","C02","C03","C05","C10"],"kind_free_text":"explicit-state exploration of command histories: one interactive worker process per session running the real Debugger over generated libc-free debuggees; reference single-step tracer; canonical-state deduplication"},
    {"name":"E5 dap","path":"/verif/harness/src/{dapx,dapw,c12}.rs","serves_properties":["C12","C13"],"kind_free_text":"explicit-state exploration of DAP request histories: the real DebugSession::run on a thread inside one worker process per session, in-memory transport, real debuggee; protocol monitor + reference-trace oracle"},
    {"name":"E4 pure","path":"/verif/harness/src/{c07,c14,c17}.rs","serves_properties":["C07","C14","C17"],"kind_free_text":"bounded-exhaustive / explicit-state exploration of in-process components against reference models"},
  ],
